@@ -529,15 +529,4 @@ def cacheRun (s : Store) : List CacheOp → List CacheAns × Store
     let rs := cacheRun r.2 ops
     (r.1 :: rs.1, rs.2)
 
-/-! ### selection (Emacs mode: `vi_mode()` is False; the Vi `+1` is a flag) -/
-
-inductive SelType | characters | lines | block
-deriving Repr, DecidableEq
-
-/-- `selection_range()` with `selection.original_cursor_position = some o` -/
-def selectionRange (d : Doc) (sel : Option Nat) : Nat × Nat :=
-  match sel with
-  | some o => (min d.cur o, max d.cur o)
-  | none => (d.cur, d.cur)
-
 end Ptk.C02
